@@ -267,9 +267,16 @@ func DistMatrix(al align.Alignment, weights []float64, model DistModel, range1Mi
 		return
 	}
 
+	// Distances that can not be computed are replaced by twice the largest
+	// computed distance. If there is no such distance (max==0), they stay
+	// undefined (NaN) instead of being set to 0
+	replace := 2 * max
+	if max == 0 {
+		replace = math.NaN()
+	}
 	for _, sp := range uncompute {
-		outmatrix[sp.i][sp.j] = 2 * max
-		outmatrix[sp.j][sp.i] = 2 * max
+		outmatrix[sp.i][sp.j] = replace
+		outmatrix[sp.j][sp.i] = replace
 	}
 
 	return
